@@ -63,7 +63,7 @@ CLASSES: dict = {
     "str_exp": ("1e999", lambda r: f"{r.range(1, 9)}e{r.range(400, 5000)}"),  # float() -> inf, Decimal finite
     "str_nan": ("nan", lambda r: r.choice(["nan", "NaN", "-nan", "NAN"])),
     "str_inf": ("inf", lambda r: r.choice(["inf", "Infinity", "+inf", "INF", "iNfinity"])),  # float() -> +inf
-    "str_pct": ("100%", lambda r: f"{r.range(1, 100)}% {_other_word(r)}"),  # a stray % (not a valid conversion)
+    "str_pct": ("100%", lambda r: f"{r.range(1, 100)}%" + r.choice(["", " z" + _other_word(r), " w", "%% %"])),  # a stray % (incomplete / unsupported conversion)
     "str_fmt_d": ("%(x)d", lambda r: f"{_other_word(r)} %({r.choice(['x', 'you', 'n'])})d"),  # %-format needing a number
     "str_fmt_s": ("hello %(you)s", lambda r: f"{_other_word(r)} %({r.choice(['x', 'you', 'n'])})s"),
     "str_b64": ("aGVsbG8=", None),  # valid base64 of valid UTF-8 (set below)
@@ -132,8 +132,8 @@ def classify(v) -> str:
         if v == 0:
             return "int_zero"
         if v < 0:
-            return "int_neg" if v >= -1000 else "int_other"
-        if v <= 1000:
+            return "int_neg" if v >= -(10**6) else "int_other"
+        if v <= 10**6:
             return "int_pos"
         if 10**12 <= v <= 10**15:
             return "int_ts"
